@@ -78,8 +78,9 @@ def isDomStr (fl : Flavor) (s : Str) : Bool :=
   !isInfix "COMMENT".toList s && !isInfix "INCLUDE".toList s &&
   !(s.contains '\'' && s.contains '"') &&
   (match fl with | .foam => !s.contains '"' | _ => true) &&
-  -- written bare it must be a source word (a leading `#` would start an include directive)
-  (s.isEmpty || s.any isQuote || s.any isComplexChar || isSrcWord s)
+  -- written bare it must be a source word (a word with a leading `#` that is not written in quotes could start an
+  -- include directive; one that starts with `#include` is written in quotes)
+  (s.isEmpty || s.any isQuote || s.any isComplexChar || isSrcWord s || startsInclude s)
 
 def isDomScalar (fl : Flavor) : Scalar → Bool
   | .str s => isDomStr fl s
